@@ -70,13 +70,18 @@ pub fn alphabet(core: bool) -> Vec<Op> {
 }
 
 fn sequences(alpha: &[Op], depth: usize, min_len: usize) -> Vec<Vec<Op>> {
+    sequences_behind(alpha, depth, min_len, false)
+}
+
+/// `behind_prefix`: the sequences continue a non-empty history, so a leading reopen is meaningful.
+fn sequences_behind(alpha: &[Op], depth: usize, min_len: usize, behind_prefix: bool) -> Vec<Vec<Op>> {
     let mut out: Vec<Vec<Op>> = Vec::new();
     let mut level: Vec<Vec<Op>> = vec![vec![]];
     for d in 1..=depth {
         let mut next = Vec::new();
         for h in &level {
             for a in alpha {
-                if matches!(a, Op::Reopen) && matches!(h.last(), None | Some(Op::Reopen)) {
+                if matches!(a, Op::Reopen) && (matches!(h.last(), Some(Op::Reopen)) || (h.is_empty() && !behind_prefix)) {
                     continue;
                 }
                 let mut n = h.clone();
@@ -118,6 +123,18 @@ pub fn cases(tier: Tier) -> Vec<Case> {
             v.push(Case { cfg: cfg_for(&ops), ops });
         }
         for ops in sequences(&alphabet(false), 2, 1) {
+            v.push(Case { cfg: cfg_for(&ops), ops });
+        }
+    }
+    // from non-initial states: a full live segment (the next append rolls it over), and a sealed segment plus a live
+    // segment that both hold events of the partition (the latest version / sequence then has to be found across
+    // both, also after a reopen)
+    let filler = Op::Append(TxS::single(0, 3, Size::Block));
+    for prefix_len in [2usize, 3] {
+        let depth = if tier.is_thorough() { 3 } else { 2 };
+        for suffix in sequences_behind(&alphabet(true), depth, 1, true) {
+            let mut ops: Vec<Op> = vec![filler.clone(); prefix_len];
+            ops.extend(suffix);
             v.push(Case { cfg: cfg_for(&ops), ops });
         }
     }
